@@ -432,7 +432,7 @@ func Run(tier string) int {
 	res.Sample(map[string]any{"example_path": []string{"coef(100)", "block(+6s)", "max(supply+mint6s-1)", "block(+6s)"}})
 	return engine.Finish(res, engine.Meta{
 		Property: Prop, Tier: tier, Level: "model_checking", Start: start, Replayer: Replay,
-		Rule:     "all sequences <= depth over the alphabet; a block transition is the real app.EndBlock + virtual BeginBlock; non-trivial = a block that minted a non-zero formula amount, distinct by (bonded, coefficient, elapsed, year)",
+		Rule:     "all sequences <= depth over the alphabet (incl. the macro step max(supply)+block that runs into the cap); a block transition is the real app.EndBlock + virtual BeginBlock; non-trivial = a block that minted a non-zero formula amount, distinct by (bonded, coefficient, elapsed, year)",
 		Bounds:   map[string]any{"depth": depth, "shards": 16},
 		Alphabet: alpha,
 		Assumptions: []string{
